@@ -127,7 +127,7 @@ theorem size_exact (f : Fmt) : ∀ v, WT f v → (enc f v).length = size f v := 
     rcases h with hv | ⟨x, hv, hx⟩
     · subst hv; simp [enc, size]
     · subst hv; simp only [enc, size, List.length_cons, ih x hx]; omega
-  | tailIf a p b iha ihb =>
+  | tailIf kp a p b iha ihb =>
     intro v ⟨x, y, hv, hx, hy⟩; subst hv
     rcases hy with ⟨hp, s, hs, hws⟩ | ⟨hp, hs⟩
     · subst hs; simp only [enc, size, hp, if_true, List.length_append, iha x hx, ihb s hws]
@@ -185,7 +185,7 @@ theorem roundtrip (f : Fmt) :
         readFlat_append' 1 _ _ rfl
       have : (1 :: enc f x) ++ rest = [1] ++ (enc f x ++ rest) := rfl
       simp only [enc, decG, this, hr, if_true, ih x _ hx]
-  | tailIf a p b iha ihb =>
+  | tailIf kp a p b iha ihb =>
     intro v rest ⟨x, y, hv, hx, hy⟩; subst hv
     rcases hy with ⟨hp, s, hs, hws⟩ | ⟨hp, hs⟩
     · subst hs
@@ -296,7 +296,7 @@ theorem trunc_err (f : Fmt) :
         have hi := ih x k hx (by omega)
         simp only [dec] at hi
         simp only [this, hr, if_true, hi]
-  | tailIf a p b iha ihb =>
+  | tailIf kp a p b iha ihb =>
     intro v k ⟨x, y, hv, hx, hy⟩ hk; subst hv
     rcases hy with ⟨hp, s, hs, hws⟩ | ⟨hp, hs⟩
     · subst hs
@@ -316,7 +316,7 @@ theorem trunc_err (f : Fmt) :
         rw [hf, hrt]
         simp only [hp, if_true, this]
     · subst hs
-      have he : enc (.tailIf a p b) (.pair x .none) = enc a x := by simp [enc, hp]
+      have he : enc (.tailIf kp a p b) (.pair x .none) = enc a x := by simp [enc, hp]
       rw [he] at hk ⊢
       have := iha x k hx hk
       simp only [dec] at this
@@ -452,7 +452,7 @@ theorem decG_hom {σ τ : Type} (rd₁ : Nat → σ → Option (List Nat × σ))
           | none => rw [hs1] at h2; simp at h2; simp [← h2]
           | some q => obtain ⟨v, s2⟩ := q; rw [hs1] at h2; simp at h2; simp [← h2]
         · simp [hb]
-  | tailIf a p b iha ihb =>
+  | tailIf kp a p b iha ihb =>
     intro s
     have h1 := iha s
     cases hs : decG rd₁ a s with
@@ -524,7 +524,7 @@ def FmtBytes : Fmt → Prop
   | .pair a b => FmtBytes a ∧ FmtBytes b
   | .vec _ _ f => FmtBytes f
   | .opt _ _ f => FmtBytes f
-  | .tailIf a _ b => FmtBytes a ∧ FmtBytes b
+  | .tailIf _ a _ b => FmtBytes a ∧ FmtBytes b
   | _ => True
 
 /-- opaque blocks of a value are bytes -/
@@ -534,8 +534,8 @@ def ValBytes : Fmt → Val → Prop
   | .pair a b, .pair x y => ValBytes a x ∧ ValBytes b y
   | .vec _ _ f, .list vs => ∀ x ∈ vs, ValBytes f x
   | .opt _ _ f, .some x => ValBytes f x
-  | .tailIf a _ b, .pair x (.some s) => ValBytes a x ∧ ValBytes b s
-  | .tailIf a _ _, .pair x _ => ValBytes a x
+  | .tailIf _ a _ b, .pair x (.some s) => ValBytes a x ∧ ValBytes b s
+  | .tailIf _ a _ _, .pair x _ => ValBytes a x
   | _, _ => True
 
 theorem isBytes_append {a b : List Nat} (ha : IsBytes a) (hb : IsBytes b) : IsBytes (a ++ b) := by
@@ -606,7 +606,7 @@ theorem enc_isBytes (f : Fmt) : ∀ v, FmtBytes f → ValBytes f v → IsBytes (
       · omega
       · exact ih x h1 hv b h
     | _ => simpa [enc] using isBytes_nil
-  | tailIf a p b iha ihb =>
+  | tailIf kp a p b iha ihb =>
     intro v ⟨h1, h2⟩ hv
     cases v with
     | pair x y =>
@@ -648,7 +648,7 @@ theorem wtb_sound (f : Fmt) : ∀ v, wtb f v = true → WT f v := by
     cases v <;> simp [wtb] at h
     · exact Or.inl rfl
     · rename_i x; exact Or.inr ⟨x, rfl, ih x h⟩
-  | tailIf a p b iha ihb =>
+  | tailIf kp a p b iha ihb =>
     intro v h
     cases v <;> simp [wtb] at h
     rename_i x y
